@@ -211,6 +211,15 @@ func (run *checkRun) verdict(eng *Engine, outDir string) int {
 	code := 0
 	total := 0
 	for _, r := range run.results {
+		if r.Ctx != nil {
+			seen := map[string]bool{}
+			for _, b := range r.Ctx.bindErrors {
+				if !seen[b] {
+					seen[b] = true
+					run.toolErrors = append(run.toolErrors, shortKey(r.Key)+": "+b)
+				}
+			}
+		}
 		if r.Unsupported != "" {
 			// a contract that can no longer be bound to the code, or an
 			// instruction outside the supported subset: undecided by tooling
@@ -222,6 +231,10 @@ func (run *checkRun) verdict(eng *Engine, outDir string) int {
 			}
 			total++
 			if o.Result.Status == "unsat" {
+				continue
+			}
+			if o.Tainted {
+				run.toolErrors = append(run.toolErrors, fmt.Sprintf("%s: not decided (a loop contract of this function no longer binds to the code)", o.Name))
 				continue
 			}
 			if o.Kind == "model" {
